@@ -146,6 +146,11 @@ def shaped_games():
                            [0, 1, 5, 2, 0, 0], [4]))
         out.append(mk_game([pl, PR, PR, PR, PR, PR], [[("a", 1), ("c", 3), ("b", 2)], [(0.5, 4), (0.5, 5)], [(0.5000008, 4), (0.4999992, 5)], [(0.5000016, 4), (0.4999984, 5)], [(1, 4)], [(1, 5)]],
                            [0, 1, 5, 2, 0, 0], [4]))
+    # the two diagnostics differ from the main outputs only below a Player 2 state whose reachability strategy (y: reach 0.2, costly) is not
+    # its reward-minimal action (x): states UPSTREAM of it (single-action Player 2, Player 1, chance) must propagate the diagnostic, not the reward
+    for root, first in ((P2, [("go", 1)]), (P1, [("go", 1)]), (PR, [(1, 1)]), (P2, [("go", 1), ("also", 1)]), (P1, [("go", 1), ("stop", 5)])):
+        out.append(mk_game([root, P2, PR, PR, PR, PR], [first, [("x", 2), ("y", 3)], [(0.5, 4), (0.5, 5)], [(0.2, 4), (0.8, 5)], [(1, 4)], [(1, 5)]],
+                           [1, 1, 1, 10, 0, 0], [4]))
     # a long shot: positive but tiny reachability values next to exact zeros
     for eps in (1e-7, 1e-9):
         out.append(mk_game([PR, PR, PR, PR, PR], [[(0.25, 1), (0.5, 2), (0.25, 4)], [(eps, 4), (1 - eps, 3)], [(0.5, 4), (0.5, 3)], [(1, 3)], [(1, 4)]], [1, 1, 1, 0, 0], [4]))
